@@ -441,3 +441,273 @@ Proof.
       * unfold delivered in *. cbn [map concat po_deliv]. rewrite map_app, F1. symmetry. exact S1.
       * rewrite final_buffer_cons. exact F2.
 Qed.
+
+(* ------------------------------------------------------------- receive_telegram, one call per poll *)
+
+Lemma poll_single_stream ts buf fut : Forall valid_telegram ts -> buf ++ fut = stream ts ->
+  poll_single buf =
+  let '(d, rem, r) := take_one ts (length buf) in Ok (mkPO d (ret_one d) (skipn (length buf - r) buf)).
+Proof.
+  intros V E. unfold poll_single, receive_telegram. destruct ts as [|t ts].
+  - apply app_eq_nil in E. destruct E as [-> _]. reflexivity.
+  - inversion V as [|? ? Vt Vts]; subst. rewrite stream_cons in E. cbn [take_one].
+    destruct (Nat.leb_spec (frame_len t) (length buf)) as [L|L].
+    + destruct (app_split_le _ _ _ _ E L) as (buf' & -> & E').
+      rewrite decode_encode by exact Vt. cbn [bind ret_one].
+      rewrite skipn_app_exact by reflexivity.
+      rewrite app_length. fold (frame_len t).
+      replace (frame_len t + length buf' - (frame_len t + length buf' - frame_len t))%nat with (length (encode t)) by (unfold frame_len; lia).
+      rewrite skipn_app_exact by reflexivity. reflexivity.
+    + assert (PF : buf = firstn (length buf) (encode t)).
+      { eapply app_split_lt; [exact E|unfold frame_len in L; lia]. }
+      rewrite PF at 1. rewrite c16_prefix_needmore by assumption. cbn [bind ret_one].
+      rewrite Nat.sub_diag. reflexivity.
+Qed.
+
+Lemma take_one_split ts buf fut : buf ++ fut = stream ts ->
+  let '(d, rem, r) := take_one ts (length buf) in
+  let tail := skipn (length buf - r) buf in
+  ts = map fst d ++ rem /\ buf = stream (map fst d) ++ tail /\ tail ++ fut = stream rem /\ length tail = r.
+Proof.
+  intros E. destruct ts as [|t ts].
+  - apply app_eq_nil in E. destruct E as [-> ->]. cbn. repeat split; reflexivity.
+  - rewrite stream_cons in E. cbn [take_one].
+    destruct (Nat.leb_spec (frame_len t) (length buf)) as [L|L].
+    + destruct (app_split_le _ _ _ _ E L) as (buf' & -> & E'). cbv zeta.
+      rewrite app_length. fold (frame_len t).
+      replace (frame_len t + length buf' - (frame_len t + length buf' - frame_len t))%nat with (length (encode t)) by (unfold frame_len; lia).
+      rewrite skipn_app_exact by reflexivity. cbn [map fst]. unfold stream at 1. cbn [map concat]. rewrite app_nil_r.
+      repeat split; try assumption; try reflexivity. lia.
+    + cbv zeta. rewrite Nat.sub_diag. cbn [skipn map stream concat app]. repeat split; try assumption; reflexivity.
+Qed.
+
+(* nothing is ever lost: delivered ++ outstanding = ts and the buffer holds exactly the
+   outstanding bytes that have arrived *)
+Lemma run_polls_single_stream : forall cs ts buf, Forall valid_telegram ts -> buf ++ concat cs = stream ts ->
+  exists outs, run_polls poll_single buf cs = Ok outs /\
+    map obs_of outs = spec_polls false ts (length buf) (map (@length Z) cs) /\
+    exists rem, ts = delivered outs ++ rem /\ final_buffer buf outs = stream rem.
+Proof.
+  induction cs as [|c cs IH]; intros ts buf V E.
+  - exists []. cbn. repeat split; try reflexivity. exists ts. cbn [concat] in E. rewrite app_nil_r in E.
+    split; [reflexivity|exact E].
+  - cbn [concat] in E. rewrite app_assoc in E. cbn [run_polls].
+    rewrite (poll_single_stream ts (buf ++ c) (concat cs) V E).
+    pose proof (take_one_split ts (buf ++ c) (concat cs) E) as SP.
+    cbn [map spec_polls]. unfold spec_poll. rewrite <- app_length.
+    destruct (take_one ts (length (buf ++ c))) as [[d rem] r]. cbv zeta in SP.
+    destruct SP as (S1 & S2 & S3 & S4). cbn [bind po_rest].
+    assert (Vr : Forall valid_telegram rem) by (rewrite S1 in V; eapply Forall_app_r, V).
+    destruct (IH rem _ Vr S3) as (outs & R & O & rem' & F1 & F2). rewrite R. cbn [bind].
+    eexists. split; [reflexivity|]. split.
+    + cbn [map]. unfold obs_of at 1. cbn [po_deliv po_ret po_rest]. rewrite S4. f_equal. rewrite <- S4. exact O.
+    + exists rem'. split.
+      * unfold delivered in *. cbn [map concat po_deliv]. rewrite map_app, <- app_assoc, <- F1. exact S1.
+      * rewrite final_buffer_cons. exact F2.
+Qed.
+
+(* polling again without new bytes drains the buffer, one telegram per call *)
+Lemma run_polls_single_drain : forall k ts, Forall valid_telegram ts -> (length ts <= k)%nat ->
+  exists outs, run_polls poll_single (stream ts) (repeat [] k) = Ok outs /\
+    delivered outs = ts /\ final_buffer (stream ts) outs = [].
+Proof.
+  induction k as [|k IH]; intros ts V L.
+  - destruct ts; [|cbn in L; lia]. exists []. repeat split; reflexivity.
+  - cbn [repeat run_polls]. rewrite app_nil_r. destruct ts as [|t ts].
+    + cbn [stream map concat].
+      assert (P0 : poll_single [] = Ok (mkPO [] None [])) by reflexivity. rewrite P0. cbn [bind po_rest].
+      destruct (IH [] V ltac:(cbn; lia)) as (outs & R & D & F). cbn [stream map concat] in R, F. rewrite R. cbn [bind].
+      eexists. split; [reflexivity|]. split.
+      * unfold delivered in *. cbn [map concat po_deliv app]. exact D.
+      * rewrite final_buffer_cons. exact F.
+    + inversion V as [|? ? Vt Vts]; subst.
+      rewrite (poll_single_stream (t :: ts) (stream (t :: ts)) [] V) by apply app_nil_r.
+      cbn [take_one]. rewrite stream_cons, app_length. fold (frame_len t).
+      destruct (Nat.leb_spec (frame_len t) (frame_len t + length (stream ts))) as [_|H]; [|lia].
+      replace (frame_len t + length (stream ts) - (frame_len t + length (stream ts) - frame_len t))%nat with (length (encode t)) by (unfold frame_len; lia).
+      rewrite skipn_app_exact by reflexivity. cbn [bind po_rest].
+      destruct (IH ts Vts ltac:(cbn in L; lia)) as (outs & R & D & F). rewrite R. cbn [bind].
+      eexists. split; [reflexivity|]. split.
+      * unfold delivered in *. cbn [map concat po_deliv app fst]. f_equal. exact D.
+      * rewrite final_buffer_cons. exact F.
+Qed.
+
+Lemma run_polls_app poll : forall cs1 cs2 buf,
+  run_polls poll buf (cs1 ++ cs2) =
+  let* o1 := run_polls poll buf cs1 in
+  let* o2 := run_polls poll (final_buffer buf o1) cs2 in
+  Ok (o1 ++ o2).
+Proof.
+  induction cs1 as [|c cs1 IH]; intros cs2 buf.
+  - cbn [app run_polls bind]. unfold final_buffer. cbn [map last].
+    destruct (run_polls poll buf cs2); reflexivity.
+  - cbn [app run_polls]. destruct (poll (buf ++ c)) as [o| |]; cbn [bind]; try reflexivity.
+    rewrite IH. destruct (run_polls poll (po_rest o) cs1) as [o1| |]; cbn [bind]; try reflexivity.
+    rewrite final_buffer_cons.
+    destruct (run_polls poll (final_buffer (po_rest o) o1) cs2); reflexivity.
+Qed.
+
+Lemma delivered_app a b : delivered (a ++ b) = delivered a ++ delivered b.
+Proof. unfold delivered. rewrite map_app, concat_app, map_app. reflexivity. Qed.
+
+Lemma final_buffer_app buf a b : final_buffer buf (a ++ b) = final_buffer (final_buffer buf a) b.
+Proof.
+  revert buf. induction a as [|o a IH]; intros buf; [reflexivity|].
+  cbn [app]. rewrite !final_buffer_cons. apply IH.
+Qed.
+
+Lemma run_polls_single_complete cs ts : Forall valid_telegram ts -> concat cs = stream ts ->
+  exists outs, run_polls poll_single [] (cs ++ repeat [] (length ts)) = Ok outs /\
+    delivered outs = ts /\ final_buffer [] outs = [].
+Proof.
+  intros V E. destruct (run_polls_single_stream cs ts [] V E) as (o1 & R1 & _ & rem & D1 & F1).
+  rewrite run_polls_app, R1. cbn [bind]. rewrite F1.
+  assert (Vr : Forall valid_telegram rem) by (rewrite D1 in V; eapply Forall_app_r, V).
+  assert (Lr : (length rem <= length ts)%nat).
+  { apply (f_equal (@length telegram)) in D1. rewrite app_length in D1. lia. }
+  destruct (run_polls_single_drain (length ts) rem Vr Lr) as (o2 & R2 & D2 & F2). rewrite R2. cbn [bind].
+  eexists. split; [reflexivity|]. split.
+  - rewrite delivered_app, D2. symmetry. exact D1.
+  - rewrite final_buffer_app, F1. exact F2.
+Qed.
+
+(* ------------------------------------------------------------- resynchronisation *)
+
+Lemma poll_all_reject buf : decode buf = Ok Reject -> poll_all buf = Ok (mkPO [] None []).
+Proof. intros D. unfold poll_all, receive_all_fuel. rewrite receive_all_reject by exact D. reflexivity. Qed.
+
+Lemma poll_single_reject buf : decode buf = Ok Reject -> poll_single buf = Ok (mkPO [] None []).
+Proof. intros D. unfold poll_single, receive_telegram. rewrite D. reflexivity. Qed.
+
+Lemma resync_all garbage cs ts : decode garbage = Ok Reject -> Forall valid_telegram ts -> concat cs = stream ts ->
+  exists outs, run_polls poll_all [] (garbage :: cs) = Ok (mkPO [] None [] :: outs) /\
+    delivered outs = ts /\ final_buffer [] outs = [] /\
+    map obs_of outs = spec_polls true ts 0 (map (@length Z) cs).
+Proof.
+  intros D V E. cbn [run_polls app]. rewrite (poll_all_reject _ D). cbn [bind po_rest].
+  destruct (run_polls_all_stream cs ts [] V E) as (outs & R & O & _ & F). rewrite R. cbn [bind].
+  assert (Sh : short ts []) by (destruct ts as [|t ts]; [reflexivity|cbn; apply frame_len_pos]).
+  destruct (F Sh) as [F1 F2]. exists outs. repeat split; assumption.
+Qed.
+
+Lemma resync_single garbage cs ts : decode garbage = Ok Reject -> Forall valid_telegram ts -> concat cs = stream ts ->
+  exists outs, run_polls poll_single [] (garbage :: cs ++ repeat [] (length ts)) = Ok (mkPO [] None [] :: outs) /\
+    delivered outs = ts /\ final_buffer [] outs = [].
+Proof.
+  intros D V E. cbn [run_polls app]. rewrite (poll_single_reject _ D). cbn [bind po_rest].
+  destruct (run_polls_single_complete cs ts V E) as (outs & R & F1 & F2). rewrite R. cbn [bind].
+  exists outs. repeat split; assumption.
+Qed.
+
+(* ------------------------------------------------------------- the boolean oracle accepts the model's observations *)
+
+Lemma bytes_eqb_refl l : bytes_eqb l l = true.
+Proof. induction l as [|x l IH]; [reflexivity|]. cbn [bytes_eqb]. rewrite Z.eqb_refl, IH. reflexivity. Qed.
+
+Lemma opt_eqb_refl o : opt_eqb o o = true.
+Proof. destruct o; [apply Z.eqb_refl|reflexivity]. Qed.
+
+Lemma telegram_eqb_refl t : telegram_eqb t t = true.
+Proof.
+  destruct t as [h pdu|da sa|]; cbn [telegram_eqb]; [|rewrite !Z.eqb_refl; reflexivity|reflexivity].
+  unfold header_eqb, fcode_eqb. rewrite !Z.eqb_refl, !opt_eqb_refl, bytes_eqb_refl. reflexivity.
+Qed.
+
+Lemma rlog_eqb_refl d : rlog_eqb d d = true.
+Proof. induction d as [|[t l] d IH]; [reflexivity|]. cbn [rlog_eqb]. rewrite telegram_eqb_refl, IH. destruct l; reflexivity. Qed.
+
+Lemma obs_eqb_refl o : obs_eqb o o = true.
+Proof.
+  unfold obs_eqb. rewrite rlog_eqb_refl, Nat.eqb_refl. destruct (ob_ret o); cbn [opt_telegram_eqb]; [rewrite telegram_eqb_refl|]; reflexivity.
+Qed.
+
+Lemma obs_list_eqb_refl l : obs_list_eqb l l = true.
+Proof. induction l as [|o l IH]; [reflexivity|]. cbn [obs_list_eqb]. rewrite obs_eqb_refl, IH. reflexivity. Qed.
+
+Lemma oracle_accepts_model (all : bool) cs ts : Forall valid_telegram ts -> concat cs = stream ts ->
+  exists outs, run_polls (if all then poll_all else poll_single) [] cs = Ok outs /\
+    c16_clean_ok all ts (map (@length Z) cs) (map obs_of outs) = true.
+Proof.
+  intros V E. destruct all.
+  - destruct (run_polls_all_stream cs ts [] V E) as (outs & R & O & _). exists outs. split; [exact R|].
+    unfold c16_clean_ok. rewrite O. apply obs_list_eqb_refl.
+  - destruct (run_polls_single_stream cs ts [] V E) as (outs & R & O & _). exists outs. split; [exact R|].
+    unfold c16_clean_ok. rewrite O. apply obs_list_eqb_refl.
+Qed.
+
+(* ------------------------------------------------------------- the helpers over an abstract PHY *)
+
+Definition phy_coherent {P} (ops : phy_ops P) : Prop :=
+  forall p buf n, phy_view ops p = Ok buf -> (n <= length buf)%nat ->
+                  phy_view ops (phy_drop ops p n) = Ok (skipn n buf).
+
+Lemma receive_all_phy_refines {P St R} (ops : phy_ops P) (f : St -> telegram -> bool -> res (St * R)) :
+  phy_coherent ops ->
+  forall fuel s p buf, phy_view ops p = Ok buf ->
+  match receive_all f fuel s buf with
+  | Ok (s', rest, r) => exists p', receive_all_phy ops f fuel s p = Ok (s', p', r) /\ phy_view ops p' = Ok rest
+  | Panic e => receive_all_phy ops f fuel s p = Panic e
+  | OutOfFuel => receive_all_phy ops f fuel s p = OutOfFuel
+  end.
+Proof.
+  intros C. induction fuel as [|fuel IH]; intros s p buf Vw; [reflexivity|].
+  rewrite receive_all_step. cbn [receive_all_phy]. unfold receive_data_phy. rewrite Vw. cbn [bind].
+  rewrite decode_is_spec. cbn [bind].
+  destruct (decode_spec buf) as [| |t n] eqn:D; cbn [bind].
+  - (* NeedMore *)
+    destruct (Nat.ltb_spec (length buf) 0) as [H|_]; [lia|]. cbn [bind].
+    exists (phy_drop ops p 0). split; [reflexivity|]. rewrite (C p buf 0%nat Vw) by lia. reflexivity.
+  - (* Reject *)
+    destruct (Nat.ltb_spec (length buf) (length buf)) as [H|_]; [lia|]. cbn [bind].
+    exists (phy_drop ops p (length buf)). split; [reflexivity|]. rewrite (C p buf _ Vw) by lia. rewrite skipn_all. reflexivity.
+  - apply decode_spec_accept_bounds in D. cbv zeta.
+    destruct (f s t (Nat.eqb n (length buf))) as [[s' r]| |]; cbn [bind]; try reflexivity.
+    destruct (Nat.ltb_spec (length buf) n) as [H|_]; [lia|]. cbn [bind].
+    pose proof (C p buf n Vw ltac:(lia)) as Vw'.
+    destruct (Nat.eqb n (length buf)).
+    + exists (phy_drop ops p n). split; [reflexivity|exact Vw'].
+    + apply IH. exact Vw'.
+Qed.
+
+Lemma receive_telegram_phy_refines {P R} (ops : phy_ops P) (f : telegram -> R) :
+  phy_coherent ops ->
+  forall p buf, phy_view ops p = Ok buf ->
+  exists rest r p', receive_telegram f buf = Ok (rest, r) /\
+    receive_telegram_phy ops f p = Ok (p', r) /\ phy_view ops p' = Ok rest.
+Proof.
+  intros C p buf Vw. unfold receive_telegram, receive_telegram_phy, receive_data_phy. rewrite Vw. cbn [bind].
+  rewrite decode_is_spec. cbn [bind].
+  destruct (decode_spec buf) as [| |t n] eqn:D; cbn [bind].
+  - destruct (Nat.ltb_spec (length buf) 0) as [H|_]; [lia|].
+    do 3 eexists. split; [reflexivity|]. split; [reflexivity|]. rewrite (C p buf 0%nat Vw) by lia. reflexivity.
+  - destruct (Nat.ltb_spec (length buf) (length buf)) as [H|_]; [lia|].
+    do 3 eexists. split; [reflexivity|]. split; [reflexivity|]. rewrite (C p buf _ Vw) by lia. rewrite skipn_all. reflexivity.
+  - apply decode_spec_accept_bounds in D.
+    destruct (Nat.ltb_spec (length buf) n) as [H|_]; [lia|].
+    do 3 eexists. split; [reflexivity|]. split; [reflexivity|]. apply C; [exact Vw|lia].
+Qed.
+
+Lemma buf_phy_coherent : phy_coherent buf_phy.
+Proof. intros p buf n Vw _. cbn in *. injection Vw as ->. reflexivity. Qed.
+
+Lemma slice_ok l a b buf : slice l a b = Ok buf ->
+  (a <= b <= length l)%nat /\ buf = firstn (b - a) (skipn a l) /\ length buf = (b - a)%nat.
+Proof.
+  unfold slice. destruct (Nat.ltb_spec b a) as [H|H]; [discriminate|].
+  destruct (Nat.ltb_spec (length l) b) as [H'|H']; [discriminate|].
+  intros E. injection E as <-. repeat split; try lia.
+  rewrite firstn_length, skipn_length. lia.
+Qed.
+
+Lemma sim_phy_coherent bus : phy_coherent (sim_phy bus).
+Proof.
+  intros p buf n Vw Hn. cbn [sim_phy phy_view phy_drop] in *. unfold sim_view in *.
+  unfold sim_poll_transmission in *. cbn [sim_drop ph_name ph_cursor].
+  destruct (is_active bus) as [a| |]; cbn [bind] in *; try discriminate.
+  destruct (match a with Some n0 => n0 =? ph_name p | None => false end); [discriminate|].
+  unfold bus_pending in *. destruct (current_cursor bus) as [cur| |]; cbn [bind] in *; try discriminate.
+  apply slice_ok in Vw. destruct Vw as ((H1 & H2) & -> & HL). rewrite HL in Hn.
+  unfold slice. destruct (Nat.ltb_spec cur (ph_cursor p + n)) as [H|_]; [lia|].
+  destruct (Nat.ltb_spec (length (sb_stream bus)) cur) as [H|_]; [lia|].
+  f_equal. rewrite skipn_firstn_comm. rewrite skipn_skipn'. f_equal. lia.
+Qed.
